@@ -31,6 +31,7 @@ type PropConfig struct {
 	Decided    []string   `json:"clauses_decided"`
 	NotDecided []string   `json:"clauses_not_decided"`
 	Extra      []string   `json:"extra"` // additional built-in checkers (tables, frames, bounded stand-ins)
+	Scenarios  []string   `json:"scenarios"` // input-free replay templates run when contracted functions are unbound or obligations undecided
 	Notes      string     `json:"notes"`
 }
 
@@ -326,14 +327,17 @@ func runCheck(pc *PropConfig, tier string, seed int, writeBaseline, verbose bool
 			records = append(records, rec)
 		}
 	}
-	// baseline obligations whose function is gone
-	for _, u := range out.unbound {
-		for n := range inBaseline {
-			short := strings.TrimPrefix(u, "github.com/ovh/kmip-go/")
-			_ = short
-			if strings.Contains(n, lastName(u)+"#") {
-				out.violations = append(out.violations, writeNoInput(pc, replayDir, n, u, "function under contract no longer exists (UNBOUND)", ""))
-				break
+	// a function under contract is gone (renamed / restructured): its obligations cannot be generated. The
+	// property-level scenario replays decide whether the behaviour is still there.
+	if len(out.unbound) > 0 || len(out.undecided) > 0 {
+		for _, sc := range pc.Scenarios {
+			rp, ok := replayers[sc]
+			if !ok || len(rp.Inputs) > 0 {
+				continue
+			}
+			res := runScenario(pc, sc, rp, replayDir)
+			if res.reproduced {
+				out.violations = append(out.violations, fmt.Sprintf("VIOLATION property=%s replay=%s scenario=%s", pc.ID, res.file, sc))
 			}
 		}
 	}
